@@ -42,7 +42,7 @@ func taintSources(e *Env, v ssa.Value, seen map[ssa.Value]bool, out *[]taintSrc,
 			return
 		}
 		// single-result module helper returning a decoded number
-		if sc := x.Call.StaticCallee(); sc != nil && len(sc.Blocks) > 0 && isInteger(x.Type()) && sc.Pkg != nil && strings.HasPrefix(sc.Pkg.Pkg.Path(), modPath) && e.depth < 4 {
+		if sc := x.Call.StaticCallee(); sc != nil && len(sc.Blocks) > 0 && isInteger(x.Type()) && sc.Pkg != nil && strings.HasPrefix(sc.Pkg.Pkg.Path(), modPath) && e.depth < maxDepth {
 			se := e.Sub(x, sc)
 			for _, r := range returnsOf(sc) {
 				if len(r.Results) == 1 {
@@ -75,7 +75,7 @@ func taintSources(e *Env, v ssa.Value, seen map[ssa.Value]bool, out *[]taintSrc,
 	case *ssa.Extract:
 		// result of a module helper that returns a decoded number (e.g. a nonce reader): follow its returns
 		if call, ok := x.Tuple.(*ssa.Call); ok {
-			if sc := call.Call.StaticCallee(); sc != nil && len(sc.Blocks) > 0 && isInteger(x.Type()) && e.depth < 4 {
+			if sc := call.Call.StaticCallee(); sc != nil && len(sc.Blocks) > 0 && isInteger(x.Type()) && e.depth < maxDepth {
 				se := e.Sub(call, sc)
 				for _, r := range returnsOf(sc) {
 					if x.Index < len(r.Results) {
